@@ -36,6 +36,14 @@ def rule_f(ctx, R, types):
             owners = [r for r in V.roots if r.id == i.id or i.id in inline.all_inlined(V.n[r.id])]
             sw = {m.id for m in V.swappers}
             okk = bool(owners) and all(r.id in sw or re.match(r"^<%s<.*> as core::ops::drop::Drop>::drop$" % re.escape(HL), r.name) for r in owners)
+            if not owners and re.match(r"^<.* as core::ops::drop::Drop>::drop$", i.name) and hl.in_module(i):
+                # the destructor of a private member of the lock (an owning pointer newtype): it runs as part of dropping the lock itself
+                # (`&mut self`, no reader can exist) — reached from the lock's drop glue and from no guard's
+                def glue_of(prefix):
+                    return [g for g in F.inst if g.kind == "drop_glue" and (g.drop_ty or "").startswith(prefix + "<") and T in (g.drop_ty or "")]
+                in_lock = i.id in F.reach(glue_of(HL)) if glue_of(HL) else False
+                in_guard = any(i.id in F.reach(glue_of(g_)) for g_ in (RG, WG) if glue_of(g_))
+                okk = in_lock and not in_guard
             ctx.check(okk, rid, "free-site:%s@%s" % (T.split("::")[-1], keyname(i.name).split("::")[-1]),
                       "a snapshot box is rebuilt from its raw pointer only by the swapping writer (after the barrier) or by Drop for the lock",
                       t["sp"], {"in": i.name, "reached_from_entry_points": [r.name for r in owners]})
@@ -146,6 +154,7 @@ def run(ctx):
                 ctx.guarded("C01.h", lambda c: hl.rule_sample_after_swap(c, "C01.h", V))
                 ctx.guarded("C01.k", lambda c: hl.rule_seen_flags(c, "C01.k", V))
                 ctx.guarded("C01.k", lambda c: hl.rule_exit_needs_all(c, "C01.k", V))
+                ctx.guarded("C01.k", lambda c: hl.rule_flag_means_idle(c, "C01.k", V))
         ctx.guarded("C01.f", rule_f, R, types)
     ctx.guarded("C01.a", body)
     ctx.guarded("C01.g", rule_g)
